@@ -1,23 +1,19 @@
-\* sessions, expiry, takeover, wills (C14 C15 C16)
 SPECIFICATION Spec
 CONSTANTS
   Clients = {"c1", "c2"}
-  ConnOrder <- K3
+  ConnOrder <- K4
   Topics <- T1
   Filters <- F_Two
-  QosSet = {1}
+  QosSet = {0, 1}
   MaxQos = 2
   SrvRecvMax = 2
   RecvMaxSet = {2}
   MaxPid = 4
   ExpirySet = {0, 2}
   WillDelaySet = {0, 1}
-  MaxMsgs = 1
-  MaxNow = 4
-  MaxHist = 9
+  MaxMsgs = 3
+  MaxNow = 5
+  MaxHist = 12
   Enabled = {"Connect", "Subscribe", "Publish", "Ack", "Close", "Tick"}
-VIEW View
-CONSTRAINT Bound
-INVARIANTS TypeOK PidUnique QuotaBound NoGhosts OneOwner ConnectedHasSession WillOnce ExactDelivery
-PROPERTIES InflightMonotone
+INVARIANTS EmitLeaf NoGhosts OneOwner WillOnce
 CHECK_DEADLOCK FALSE
